@@ -595,7 +595,9 @@ def dict_resolver(env):
 
             try:
                 co = codefind.find_code(*hierarchy, module=module or "__main__")
-            except KeyError:
+            except (KeyError, ImportError, TypeError, ValueError):
+                # KeyError: no such function in the module; the others
+                # are raised when the module itself cannot be imported
                 raise CodeNotFoundError(
                     f"Cannot find a function for the reference '{x}'."
                     " Try calling `ptera.refstring` on the function you want"
@@ -625,7 +627,10 @@ def dict_resolver(env):
                 raise SelectorError(f"Could not resolve '{start}'.")
 
             for part in parts:
-                curr = getattr(curr, part)
+                try:
+                    curr = getattr(curr, part)
+                except AttributeError:
+                    raise SelectorError(f"Could not resolve '{x}'.")
 
         return getattr(curr, "__ptera__", curr)
 
